@@ -123,9 +123,16 @@ def sites(fx, only=None):
     return out
 
 
+# one named exemption: the URL parser's state loop runs up to and including input_position == input_size on purpose (the
+# Standard's EOF code point), so `index <= size` holds everywhere in it and every read of url_data[input_position] relies on a
+# separate `!= input_size` test, written in many forms (flags, helper lambdas, early breaks) that the linear facts do not
+# always carry: there the "inclusive" verdict is not a contradiction in the code's own terms.
+EXEMPT = {"ada::parser::parse_url_impl"}
+
+
 def check(ctx, fx, cfg, rule="M6"):
     n = {"strict": 0, "inclusive": 0, "undecided": 0}
-    for f, text, loc, v in sites(fx):
+    for f, text, loc, v in sites(fx, only=lambda g: g["qname"] not in EXEMPT):
         n[v] += 1
         if v == "strict":
             ctx.ok(rule, "%s: %s at %s" % (f["qname"], text, loc), "index + 1 <= size on every path", where=loc)
